@@ -213,7 +213,7 @@ def handle (c : Option Case) (line : String) : Option Case × String :=
     | none, _ => (c, "no-case")
     | _, none => (c, "bad-op")
 
-partial def loop (h : IO.FS.Stream) (out : IO.FS.Stream) (c : Option Case) (cs : Option Conc.St := none) : IO Unit := do
+partial def loop (h : IO.FS.Stream) (out : IO.FS.Stream) (c : Option Case) (cs : Option Conc.St := none) (ds : Option Conc.DropSt := none) : IO Unit := do
   let line ← h.getLine
   if line.isEmpty then return ()
   let ws := (line.trimAscii.toString.splitOn " ").filter (· ≠ "")
@@ -224,11 +224,11 @@ partial def loop (h : IO.FS.Stream) (out : IO.FS.Stream) (c : Option Case) (cs :
     | some l, some w =>
       out.putStrLn (if l = 0 then "fail zero-length" else "ok")
       out.flush
-      loop h out c (if l = 0 then none else some (Conc.init l (w != 0)))
+      loop h out c (if l = 0 then none else some (Conc.init l (w != 0))) (some (Conc.dinit (w != 0)))
     | _, _ =>
       out.putStrLn "fail bad-line"
       out.flush
-      loop h out c cs
+      loop h out c cs ds
   | x :: _ =>
     if x == "cld" || x == "cst" || x == "cac" || x == "cq" then
       match cs with
@@ -236,20 +236,31 @@ partial def loop (h : IO.FS.Stream) (out : IO.FS.Stream) (c : Option Case) (cs :
         let (s1, ans) := Conc.replayLine s ws
         out.putStrLn ans
         out.flush
-        loop h out c (some s1)
+        loop h out c (some s1) ds
       | none =>
         out.putStrLn "fail no-cinit"
         out.flush
-        loop h out c cs
+        loop h out c cs ds
+    else if x == "cdf" || x == "cdd" || x == "cdx" then
+      match ds with
+      | some d =>
+        let (d1, ans) := Conc.dropReplayLine d ws
+        out.putStrLn ans
+        out.flush
+        loop h out c cs (some d1)
+      | none =>
+        out.putStrLn "fail no-cinit"
+        out.flush
+        loop h out c cs ds
     else
       let (c', ans) := handle c line
       out.putStrLn ans
       out.flush
-      loop h out c' cs
+      loop h out c' cs ds
   | [] =>
     let (c', ans) := handle c line
     out.putStrLn ans
     out.flush
-    loop h out c' cs
+    loop h out c' cs ds
 
 end MRB.Driver
